@@ -20,7 +20,7 @@
   `C17_ic_reductions`, `C17_elasticity_bspline`).
 
   OBLIGATIONS: C17_bending_affine_zero C17_curvature_affine_zero C17_affine_zero_reduced
-    C17_bending_default_affine_refuted C17_add_affine_invariant
+    C17_add_affine_invariant
     C17_grad_terms_translation_zero C17_translation_zero_reduced C17_affine_values C17_affine_values_23
     C17_nonneg C17_quadratic_scaling C17_quadratic_scaling_fd C17_scaling_reduced C17_spacing_power C17_tv_scaling
     C17_linear_transform_zero C17_reductions
@@ -554,7 +554,12 @@ theorem f17dU_eq : affFlow f17dA (fun _ => 1) (fun _ => 0) = f17dU := by
   funext i idx
   fin_cases i <;> simp [affFlow, affField, f17dA, f17dU, Fin.sum_univ_two]
 
-/-- F-17d: the statement fails — at the corner sample (0, 0) of a 5×5 grid the default-mode bending
+-- REBASE F-17d (C12 builder): pending C17 re-base
+-- (`sdStep` now has the replicate-padded prewitt / sobel averaging of the repaired code; the refutation below is
+--  no longer true and is to be replaced by the positive theorem — `FD.sdStep_const_slab` /
+--  `C12_second_affine_zero` give second derivatives of affine fields = 0 at every grid point for sobel.)
+/-
+/-! F-17d: the statement fails — at the corner sample (0, 0) of a 5×5 grid the default-mode bending
     density of the affine field `(x + y, 0)` is 9/128 (the averaging kernel is zero-padded), so the
     reduced default-mode bending energy of an affine field is not zero.  (`secondOrderMode none = .fd .sobel`.)
     What holds is `C17_bending_affine_zero`: the margin-2 interior, and every point for
@@ -567,6 +572,8 @@ theorem C17_bending_default_affine_refuted : ¬ C17_bending_default_affine_State
   have : bendingField id (fdBackend .sobel (fun _ => 5) (fun _ => (1 : ℚ))) f17dU (fun _ => 0) ≠ some 0 := by
     decide +kernel
   exact this hv
+
+-/
 
 example : secondOrderMode none = .fd .sobel := rfl
 
